@@ -12,13 +12,17 @@ RULE_TEXT = (
     "Exhaustive part: fixed trees (T4=r{a{x},b,c}; thorough adds imports of the root and T6=r{a{x,y},b{x},c}, "
     "T5=r{a{x{k}},b{y}} with bounded edge subsets) x EVERY import relation over the candidate edges (u!=v, u not an "
     "ancestor of v) x every rule with 1-2 pairwise-unrelated subjects and objects, both filter kinds, 12 shapes + 2 "
-    "'anything' aliases. Random part: Hypothesis trees (<=14 modules, depth<=4, prefix-colliding sibling names), <=16 "
-    "imports biased to the rule's modules, batches up to 3x3. Oracle: verdict of the set-comprehension model. A case is "
+    "'anything' aliases; and, with imports of the root allowed, every rule with explicit objects in which some subject is the "
+    "same module as, an ancestor of or a descendant of some object ('sub modules of X should not import X'; quick: 1x1 rules "
+    "on relations with <= 3 edges and 2x2 batches with <= 2 edges, thorough: 1x1 on all 2^15 relations, batches with <= 4). Random part: Hypothesis trees (<=14 modules, depth<=4, prefix-colliding sibling names), <=16 "
+    "imports biased to the rule's modules, batches up to 3x3, a fifth of the rules with related subjects and objects. Oracle: verdict of the set-comprehension model. A case is "
     "non-trivial when at least one import has an endpoint inside a subject's denotation; distinct = distinct "
     "(tree, imports, rule) (by construction in the exhaustive part, by hash in the random part)."
 )
 ASSUMPTIONS = [
-    "strict oracle only for rules whose subjects and objects are pairwise unrelated in the hierarchy (as the property states)",
+    "rules whose subjects and objects are hierarchically related are judged by the same set semantics (denotations are sets "
+    "of modules; an import from a subject module to an object module is an 'edge', 'something else' lies outside the subject and "
+    "outside all objects); the 'anything' aliases are only generated with pairwise unrelated subjects",
     "'anything' alias with several subjects: verdict only required to lie between the per-subject and the batch reading",
     "direct graphs contain no import from a module to its own descendant (not representable / never produced by scans)",
 ]
@@ -80,10 +84,11 @@ def check_case(spec: dict) -> dict:
 
 
 def exh_shard(arg, st, deadline) -> None:
-    tkey, shard, nshards, max_edges, root_target, max_s, max_o = arg
+    tkey, shard, nshards, max_edges, root_target, max_s, max_o = arg[:7]
+    related = len(arg) > 7 and arg[7]
     tree = RS.TREES[tkey]
     cand = M.candidate_edges(tree, allow_root_target=root_target, root=tree[0])
-    rules = RS.enum_rules(tree, max_s, max_o, root=tree[0])
+    rules = RS.enum_related_rules(tree, max_s, max_o) if related else RS.enum_rules(tree, max_s, max_o, root=tree[0])
     i = 0
     for imports in RS.graphs_of(cand, shard, nshards, max_edges):
         if RS.timed_out(deadline, i, 8):
@@ -112,10 +117,15 @@ def strategy(tier):
 
 
 def plan(tier):
-    """(name, tree, max_edges, root_target, max_s, max_o)"""
+    """(name, tree, max_edges, root_target, max_s, max_o[, related subjects/objects])"""
     if tier == "quick":
-        return [("T4-all-relations", "T4", None, False, 2, 2)]
+        return [("T4-all-relations", "T4", None, False, 2, 2),
+                ("T4-related-subject-object-pairs", "T4", 3, True, 1, 1, True),
+                ("T4-related-subject-object-batches", "T4", 2, True, 2, 2, True)]
     return [
+        ("T4-related-subject-object-pairs-all-relations", "T4", None, True, 1, 1, True),
+        ("T4-related-subject-object-batches", "T4", 4, True, 2, 2, True),
+        ("T5-related-subject-object-batches", "T5", 3, True, 2, 2, True),
         ("T4-all-relations-with-root-targets", "T4", None, True, 2, 2),
         ("T6-relations-up-to-3-edges", "T6", 3, False, 2, 2),
         ("T5-relations-up-to-3-edges", "T5", 3, False, 2, 2),
@@ -123,15 +133,16 @@ def plan(tier):
 
 
 def run_space(ctx, modname) -> None:
-    for name, tkey, max_edges, root_target, max_s, max_o in plan(ctx.tier):
+    for name, tkey, max_edges, root_target, max_s, max_o, *rel in plan(ctx.tier):
         tree = RS.TREES[tkey]
         n = len(M.candidate_edges(tree, allow_root_target=root_target, root=tree[0]))
         nsh = 64 if max_edges is None else 128
-        shards = [(tkey, i, nsh, max_edges, root_target, max_s, max_o) for i in range(nsh)]
+        shards = [(tkey, i, nsh, max_edges, root_target, max_s, max_o, bool(rel)) for i in range(nsh)]
         total = RS.count_graphs(n, max_edges)
         scope = (f"{tkey}: all {total} import relations"
                  + (f" with <= {max_edges} edges" if max_edges is not None else "")
-                 + f" over {n} candidate edges x all rules (<= {max_s} subjects, <= {max_o} objects)")
+                 + f" over {n} candidate edges x all rules (<= {max_s} subjects, <= {max_o} objects"
+                 + (", some subject being the same module as / an ancestor / a descendant of some object)" if rel else ", subjects unrelated to objects)"))
         ctx.exhaustive(name, modname, "exh_shard", shards, scope)
     ctx.random("random-trees", modname, "strategy", "check_case", 32000 if ctx.tier == "quick" else 400000)
 
